@@ -63,4 +63,9 @@ class CallWriteHandler(AbstractWriteHandler):
         elif isinstance(called_op, SsbForeignLabel):
             label_id = called_op.label.id
         self.decompiler.write_call(label_id)
-        return next_edge.target_vertex if next_edge is not None else None
+        if next_edge is None:
+            # Inside a block the text would go on after the block (or once more around the loop): end the routine here.
+            if self.decompiler.indent > 1:
+                self.decompiler.write_return()
+            return None
+        return next_edge.target_vertex
